@@ -67,10 +67,37 @@ def run_job(job, root, pid_prop):
     jr.dir = d
     t0 = time.time()
     try:
-        gb, facts = P.build(job, d)
-        jr.facts = facts
-        v = P.verify(job, gb, d)
-        jr.results, jr.solver_s, jr.vars, jr.clauses, jr.cmd = v["results"], v["solver_s"], v["vars"], v["clauses"], v["cmd"]
+        if job.get("grid"):
+            # bounded stand-in: the same harness at a grid of concrete shapes; one build + cbmc run per point
+            jr.facts = {"loops": [], "macro_loops": 0, "grid_points": [g["label"] for g in job["grid"]]}
+            gb = None
+            for g in job["grid"]:
+                jg = dict(job)
+                jg["defs"] = list(job.get("defs", [])) + list(g["defs"])
+                dg = os.path.join(d, re.sub(r"[^A-Za-z0-9_.-]", "_", g["label"]))
+                os.makedirs(dg, exist_ok=True)
+                gbg, _ = P.build(jg, dg)
+                v = P.verify(jg, os.path.join(dg, gbg), dg)
+                for r in v["results"]:
+                    r = dict(r)
+                    r["grid"] = g["label"]
+                    r["gdir"] = dg
+                    r["gb"] = os.path.join(dg, gbg)
+                    r["gdefs"] = jg["defs"]
+                    jr.results.append(r)
+                jr.solver_s += v["solver_s"]
+                jr.vars = max(jr.vars, v["vars"])
+                jr.clauses = max(jr.clauses, v["clauses"])
+                jr.cmd = v["cmd"]
+                if not any(r["status"] != "SUCCESS" for r in v["results"]) and not os.environ.get("TJV_KEEP"):
+                    for f in os.listdir(dg):
+                        if f.endswith(".gb"):
+                            os.remove(os.path.join(dg, f))
+        else:
+            gb, facts = P.build(job, d)
+            jr.facts = facts
+            v = P.verify(job, gb, d)
+            jr.results, jr.solver_s, jr.vars, jr.clauses, jr.cmd = v["results"], v["solver_s"], v["vars"], v["clauses"], v["cmd"]
         # expected obligation descriptions (committed): a lost obligation is a tool error
         exp_file = os.path.join(VERIF, "obligations", job["name"] + ".txt")
         have = set(r["desc"] for r in jr.results)
@@ -94,7 +121,10 @@ def run_job(job, root, pid_prop):
         # vacuity twin
         if job.get("reach", True) and not jr.failed:
             j2 = dict(job)
-            j2["defs"] = list(job.get("defs", [])) + ["TJV_REACH"]
+            j2.pop("grid", None)
+            if job.get("grid"):
+                j2["defs"] = list(job.get("defs", [])) + list(job["grid"][-1]["defs"])
+            j2["defs"] = list(j2.get("defs", [])) + ["TJV_REACH"]
             d2 = os.path.join(d, "reach")
             os.makedirs(d2, exist_ok=True)
             gb2, _ = P.build(j2, d2)
@@ -102,7 +132,17 @@ def run_job(job, root, pid_prop):
             rs = [r for r in v2["results"] if r["desc"].startswith("TJV_REACH")]
             if not rs:
                 raise ToolError("job %s: reachability twin generated no TJV_REACH assertion" % job["name"])
-            notfail = [r["desc"] for r in rs if r["status"] != "FAILURE"]
+            must = job.get("reach_must", ["TJV_REACH after"])
+            for mpat in must:
+                if not [r for r in rs if mpat in r["desc"]]:
+                    raise ToolError("job %s: reachability twin lacks required assertion '%s'" % (job["name"], mpat))
+            # harness-level points ("after ..."): every instance must be reachable; stub-level points are duplicated by
+            # the loop-contract transformation (base / step / exit copies): at least one instance must be reachable
+            notfail = [r["desc"] for r in rs if r["status"] != "FAILURE" and "TJV_REACH after" in r["desc"]]
+            for mpat in must:
+                if not [r for r in rs if mpat in r["desc"] and r["status"] == "FAILURE"]:
+                    notfail.append(mpat)
+            rs = [r for r in rs if r["status"] == "FAILURE"]
             if notfail:
                 raise ToolError("job %s: vacuous: reachability assertion(s) did not fail: %s" % (job["name"], notfail[:3]))
             jr.reach = len(rs)
@@ -111,7 +151,13 @@ def run_job(job, root, pid_prop):
         n = 0
         for f in jr.failed:
             if f[1] == "prop" and pid_prop in f[2] and n < 2:
-                txt, vals = P.trace(job, gb, d, f[0]["name"])
+                if f[0].get("gb"):
+                    jt = dict(job)
+                    jt["defs"] = f[0]["gdefs"]
+                    txt, vals = P.trace(jt, f[0]["gb"], f[0]["gdir"], f[0]["name"])
+                    vals["grid"] = f[0]["grid"]
+                else:
+                    txt, vals = P.trace(job, gb, d, f[0]["name"])
                 f[3], f[4] = txt, vals
                 n += 1
     except ToolError as ex:
